@@ -159,9 +159,15 @@ def jax_resume(seed, entries, scratch):
 # ---- execution strategies of the samplers under every form of the solver options ------------------
 
 CG_FORMS = {"absdelta": dict(absdelta=1e-20, maxiter=60), "resnorm": dict(resnorm=1e-11, maxiter=60),
-            "both": dict(absdelta=1e-20, resnorm=1e-11, maxiter=60), "neither": dict(maxiter=60)}
+            "both": dict(absdelta=1e-20, resnorm=1e-11, maxiter=60), "neither": dict(maxiter=60),
+            # non-default iteration bounds: the criterion is met at once, miniter decides / maxiter decides
+            "miniter": dict(resnorm=1e3, miniter=4, maxiter=60), "maxiter": dict(absdelta=1e-20, miniter=2, maxiter=7),
+            "miniter_abs": dict(absdelta=1e3, miniter=5, maxiter=60)}
 NL_FORMS = {"xtol": dict(xtol=1e-10, maxiter=8), "absdelta": dict(absdelta=1e-14, maxiter=8),
-            "both": dict(xtol=1e-10, absdelta=1e-14, maxiter=8), "neither": dict(maxiter=8)}
+            "both": dict(xtol=1e-10, absdelta=1e-14, maxiter=8), "neither": dict(maxiter=8),
+            # xtol / absdelta are met from the first step on: the number of Newton steps is fixed by miniter
+            "miniter": dict(xtol=1e3, miniter=2, maxiter=8), "miniter1": dict(xtol=1e3, miniter=1, maxiter=8),
+            "miniter_abs": dict(absdelta=1e3, miniter=2, maxiter=8), "maxiter": dict(xtol=1e-30, miniter=1, maxiter=2)}
 
 
 def jax_strategy(seed, entries):
